@@ -46,13 +46,21 @@ func drawGlobals(r *Rng, names []string) map[string][]string {
 // drawEntrypoints picks a non-empty subset of packages.
 func drawEntrypoints(r *Rng, m *ModuleSpec) []int {
 	var out []int
-	for i := range m.Pkgs {
+	n := len(m.Pkgs)
+	if m.Sub != nil {
+		// (the packages of the second module come last; runs are started for packages of the main module,
+		// the other module only takes part through imports)
+		for n > 0 && m.Pkgs[n-1].InSub {
+			n--
+		}
+	}
+	for i := 0; i < n; i++ {
 		if r.P(0.6) {
 			out = append(out, i)
 		}
 	}
 	if len(out) == 0 {
-		out = []int{r.Intn(len(m.Pkgs))}
+		out = []int{r.Intn(n)}
 	}
 	return out
 }
